@@ -171,7 +171,186 @@ def plan(tier, seed, build, scale):
     while a < n:
         units.append({"cases": [a, min(n, a + per)], "nsched": 3 if tier == "quick" else 6})
         a += per
+    units.append({"mode": "cwc", "cases": [0, 1]})
     return units
+
+
+def run_cwc(res, inc, progress):
+    """tools.call_with_context(ctx, fn, *args): fn runs - ALL of it, also what an eager (async_proxy) fn does when it is
+    called - under ctx, its siblings in the same yield do not. Expected reads are those of the sequential program
+    `with ctx: return fn(*args)`."""
+    import itertools
+    from asynq import asynq, async_proxy, AsyncScopedValue, async_override, ConstFuture, scheduler as asynq_scheduler
+    from asynq.batching import BatchBase, BatchItemBase
+    from asynq.tools import call_with_context
+
+    class B(BatchBase):
+        def _try_switch_active_batch(self):
+            if cur[0] is self:
+                cur[0] = None
+
+        def _flush(self):
+            for it in self.items:
+                it.set_value(None)
+
+    cur = [None]
+
+    def item():
+        if cur[0] is None or cur[0].is_flushed():
+            cur[0] = B()
+        return BatchItemBase(cur[0])
+
+    class Holder(object):
+        attr = "outer"
+
+    sv = AsyncScopedValue("outer")
+    h = Holder()
+
+    def read():
+        return (sv.get(), h.attr)
+
+    class Boom(Exception):
+        pass
+
+    @asynq()
+    def f_gen(fail):
+        r1 = read()
+        yield item()
+        r2 = read()
+        yield item()
+        if fail:
+            raise Boom((r1, r2, read()))
+        return (r1, r2, read())
+
+    @asynq()
+    def f_plain(fail):
+        if fail:
+            raise Boom((read(),))
+        return (read(),)
+
+    @async_proxy()
+    def f_proxy_const(fail):
+        if fail:
+            raise Boom((read(),))
+        return ConstFuture((read(),))
+
+    @asynq()
+    def _tail(first, fail):
+        yield item()
+        if fail:
+            raise Boom((first, read()))
+        return (first, read())
+
+    @async_proxy()
+    def f_proxy_task(fail):
+        return _tail.asynq(read(), fail)
+
+    class Obj(object):
+        @asynq()
+        def m(self, fail):
+            r1 = read()
+            yield item()
+            if fail:
+                raise Boom((r1, read()))
+            return (r1, read())
+
+    fns = [("generator", f_gen), ("plain body", f_plain), ("async_proxy -> ConstFuture", f_proxy_const), ("async_proxy -> task", f_proxy_task), ("bound method", Obj().m)]
+
+    @asynq()
+    def sibling():
+        r1 = read()
+        yield item()
+        return (r1, read())
+
+    def ctx_of(kind, val):
+        if kind == "scoped":
+            return sv.override(val)
+        return async_override(h, "attr", val)
+
+    def want(kind, val, base):
+        return (val, base[1]) if kind == "scoped" else (base[0], val)
+
+    n = 0
+    for (fname, fn), kind, mid, nested, pos, fail, how in itertools.product(fns, ("scoped", "attr"), (False, True), (False, True), (0, 1, 2), (False, True), ("call", "value")):
+        progress(n)
+        n += 1
+        okind = "attr" if kind == "scoped" else "scoped"
+
+        @asynq()
+        def root():
+            def go():
+                if nested:
+                    # ctx2 (the OTHER variable) inside ctx: both in force for fn
+                    cw = call_with_context.asynq(ctx_of(kind, "inner"), call_with_context, ctx_of(okind, "inner2"), fn, fail)
+                else:
+                    cw = call_with_context.asynq(ctx_of(kind, "inner"), fn, fail)
+                sibs = [sibling.asynq(), sibling.asynq()]
+                sibs.insert(pos, cw)
+                return tuple(sibs)
+
+            caught = None
+            got = None
+            if mid:
+                with ctx_of(kind, "mid"):
+                    try:
+                        got = yield go()
+                    except Boom as e:
+                        caught = e.args[0]
+                    inside = read()
+            else:
+                try:
+                    got = yield go()
+                except Boom as e:
+                    caught = e.args[0]
+                inside = read()
+            yield item()
+            return got, caught, inside, read()
+
+        try:
+            out = root() if how == "call" else root.asynq().value()
+        except BaseException as e:
+            out = ("raised", repr(e)[:200])
+        res["evaluations"] += 1
+        inc("call_with_context_computations")
+        base = ("outer", "outer")
+        around = want(kind, "mid", base) if mid else base
+        in_fn = want(kind, "inner", around)
+        if nested:
+            in_fn = want(okind, "inner2", in_fn)
+        problems = []
+        if out[0] == "raised" if isinstance(out[0], str) else False:
+            problems.append(("computation raised", out[1]))
+        else:
+            got, caught, inside, after = out
+            fn_reads = caught if fail else (got[pos] if got is not None else None)
+            if fn_reads is None or any(r != in_fn for r in fn_reads):
+                problems.append(("reads of fn (%s)" % fname, {"observed": repr(fn_reads), "expected_each": repr(in_fn)}))
+            if not fail:
+                for k, sr in enumerate(got):
+                    if k != pos and any(r != around for r in sr):
+                        problems.append(("reads of a sibling in the same yield", {"observed": repr(sr), "expected_each": repr(around)}))
+            if inside != around:
+                problems.append(("read by the caller after the yield", {"observed": repr(inside), "expected": repr(around)}))
+            if after != base:
+                problems.append(("read by the caller after its own block", {"observed": repr(after), "expected": repr(base)}))
+            inc("call_with_context_reads_compared", (len(fn_reads) if fn_reads else 0) + 6)
+        if read() != base:
+            problems.append(("values after the computation", repr(read())))
+            sv.set("outer")
+            h.attr = "outer"
+            asynq_scheduler.reset()
+        for what, d in problems[:1]:
+            if len(res["violations"]) < 3:
+                res["violations"].append(
+                    {
+                        "oracle": "call_with_context-reads",
+                        "mechanism": "call_with_context-reads",
+                        "detail": {"what": what, "observed": d, "fn": fname, "context": kind, "caller_inside_an_override": mid, "nested_call_with_context": nested, "position_in_yield": pos, "fn_fails": fail, "how": how},
+                        "case": {"mode": "cwc", "cases": [0, 1]},
+                    }
+                )
+        res["nontrivial"].append(hash((fname, kind, mid, nested, pos, fail)) & 0xFFFFFFFFFFFF)
+    return res
 
 
 def run_unit(unit, progress):
@@ -181,6 +360,8 @@ def run_unit(unit, progress):
     def inc(k, n=1):
         c[k] = c.get(k, 0) + n
 
+    if unit.get("mode") == "cwc":
+        return run_cwc(res, inc, progress)
     a, b = unit["cases"]
     for i in range(a, b):
         progress(i)
@@ -279,7 +460,7 @@ def run_unit(unit, progress):
 
 def reach(c, tier):
     out = []
-    for k in ("reads_compared", "reads_under_an_override", "programs_with_shared_tasks", "diamond_programs", "n_nesting_events", "n_restore_checks", "computations_ending_in_exception", "runs_where_a_context_callback_raised"):
+    for k in ("call_with_context_reads_compared", "reads_compared", "reads_under_an_override", "programs_with_shared_tasks", "diamond_programs", "n_nesting_events", "n_restore_checks", "computations_ending_in_exception", "runs_where_a_context_callback_raised"):
         if not c.get(k):
             out.append("%s is zero" % k)
     if c.get("max_nesting_depth", 0) < 2:
